@@ -33,13 +33,14 @@ theorem tag_normalHostStems {host0 : Str} {t : TStem} (h : t ∈ normalHostStems
   · simp at h; simp [h]
   · exact tag_labelStems h
 
-theorem tag_hostStemsOfSplit {host0 : Str} {o : Option (Str × Str)} {t : TStem}
-    (h : t ∈ hostStemsOfSplit host0 o) : t.1 = 'h' := by
+theorem tag_hostStemsOfSplit {host0 hn : Str} {o : Option (Str × Str)} {t : TStem}
+    (h : t ∈ hostStemsOfSplit host0 hn o) : t.1 = 'h' := by
   match o with
   | none => exact tag_normalHostStems h
   | some (d, s) =>
-    simp only [hostStemsOfSplit, List.mem_cons] at h
-    rcases h with rfl | h
+    simp only [hostStemsOfSplit, List.mem_append, List.mem_cons] at h
+    rcases h with h | rfl | h
+    · rw [(List.mem_replicate.1 h).2]
     · rfl
     · split at h
       · exact tag_labelStems h
@@ -49,13 +50,15 @@ theorem tag_hostStemsOfSplit {host0 : Str} {o : Option (Str × Str)} {t : TStem}
 theorem hostStems_eq (sa : Bool) (n host0 : Str) :
     hostStems sp sa n host0 =
       if (sa && !(host0.head? == some '[')) = true
-      then hostStemsOfSplit host0 (splitSuffixParsed sp n) else normalHostStems host0 := rfl
+      then hostStemsOfSplit host0 (lowerHostname n) (splitSuffixParsed sp n)
+      else normalHostStems host0 := rfl
 
 /-- the host stems in the vocabulary of the specification (`hostSplit`: a bracketed literal has
 no public suffix) -/
 theorem hostStems_spec (sa : Bool) (n : Str) :
     hostStems sp sa n (specHost n) =
-      if sa then hostStemsOfSplit (specHost n) (hostSplit sp n) else normalHostStems (specHost n) := by
+      if sa then hostStemsOfSplit (specHost n) (lowerHostname n) (hostSplit sp n)
+      else normalHostStems (specHost n) := by
   rw [hostStems_eq]
   unfold hostSplit
   cases sa <;> cases ((specHost n).head? == some '[') <;> simp [hostStemsOfSplit]
@@ -175,10 +178,10 @@ theorem values_labelStems (s : Str) : (labelStems s).map (·.2) = (splitChar '.'
 theorem values_pathStems (path : Str) : (pathStems path).map (·.2) = (splitChar '/' path).tail := by
   simp [pathStems, List.map_map, Function.comp_def]
 
-/-- the host re-joined from its `h` stems -/
-def hostJoined (host0 : Str) : Option (Str × Str) → Str
+/-- the host re-joined from its `h` stems (`hn`: the lower-cased hostname) -/
+def hostJoined (host0 hn : Str) : Option (Str × Str) → Str
   | none => host0
-  | some (d, s) => rejoin d s
+  | some (d, s) => rejoinHost hn d s
 
 theorem values_normalHostStems (host0 : Str) :
     (normalHostStems host0).map (·.2) ≠ [] ∧
@@ -190,20 +193,93 @@ theorem values_normalHostStems (host0 : Str) :
     refine ⟨by simpa [splitChar] using splitBy_ne_nil (p := fun c _ => c == '.') host0, ?_⟩
     rw [List.reverse_reverse, joinChar_splitChar]
 
-theorem values_hostStemsOfSplit (host0 : Str) (o : Option (Str × Str)) :
-    (hostStemsOfSplit host0 o).map (·.2) ≠ [] ∧
-      joinChar '.' ((hostStemsOfSplit host0 o).map (·.2)).reverse = hostJoined host0 o := by
+/-- `k` empty labels at the end of a dotted name are `k` trailing dots -/
+theorem joinChar_append_replicate_nil (l : List Str) (hne : l ≠ []) (k : Nat) :
+    joinChar '.' (l ++ List.replicate k []) = joinChar '.' l ++ List.replicate k '.' := by
+  induction k with
+  | zero => simp
+  | succ k ih =>
+    rw [List.replicate_succ', ← List.append_assoc,
+      joinChar_append_singleton _ (by simp [hne]), ih, List.replicate_succ']
+    simp
+
+theorem values_hostStemsOfSplit (host0 hn : Str) (o : Option (Str × Str)) :
+    (hostStemsOfSplit host0 hn o).map (·.2) ≠ [] ∧
+      joinChar '.' ((hostStemsOfSplit host0 hn o).map (·.2)).reverse = hostJoined host0 hn o := by
   match o with
   | none => exact values_normalHostStems host0
   | some (d, s) =>
-    simp only [hostStemsOfSplit, List.map_cons, hostJoined, rejoin]
+    simp only [hostStemsOfSplit, List.map_append, List.map_cons, List.map_replicate, hostJoined,
+      rejoinHost]
     refine ⟨by simp, ?_⟩
-    by_cases hd : d = []
-    · simp [hd, joinChar]
-    · simp only [hd, ne_eq, not_false_eq_true, if_true, if_false, values_labelStems,
-        List.reverse_cons, List.reverse_reverse]
+    simp only [List.reverse_append, List.reverse_cons, List.reverse_replicate, List.append_assoc]
+    by_cases hc : d ≠ [] ∨ s.length < (rstripChars hn ['.']).length
+    · simp only [hc, if_true, values_labelStems, List.reverse_reverse]
       have hne : splitChar '.' d ≠ [] := splitBy_ne_nil d
-      rw [joinChar_append_singleton _ hne, joinChar_splitChar]
+      rw [← List.append_assoc, joinChar_append_replicate_nil _ (by simp),
+        joinChar_append_singleton _ hne, joinChar_splitChar]
+    · simp only [hc, if_false, List.map_nil, List.reverse_nil, List.nil_append]
+      rw [joinChar_append_replicate_nil _ (by simp)]
+      simp [joinChar]
+
+/-! ## `rejoinHost`: trailing dots and the lone leading dot -/
+
+theorem takeWhile_dots (r : Str) :
+    r.takeWhile (fun c => ['.'].contains c) =
+      List.replicate (r.takeWhile (fun c => ['.'].contains c)).length '.' := by
+  apply List.eq_replicate_iff.2
+  refine ⟨rfl, fun b hb => ?_⟩
+  induction r with
+  | nil => simp at hb
+  | cons c r ih =>
+    by_cases h : c = '.'
+    · subst h
+      rw [List.takeWhile_cons] at hb
+      simp only [show ['.'].contains '.' = true from rfl, if_true, List.mem_cons] at hb
+      rcases hb with hb | hb
+      · exact hb
+      · exact ih hb
+    · simp [List.takeWhile_cons, h] at hb
+
+/-- a string is its `rstrip(".")` followed by its trailing dots -/
+theorem rstrip_dots_append (l : Str) :
+    rstripChars l ['.'] ++ List.replicate (l.length - (rstripChars l ['.']).length) '.' = l := by
+  have h := List.takeWhile_append_dropWhile (p := fun c => ['.'].contains c) (l := l.reverse)
+  have hl : l = (l.reverse.dropWhile (fun c => ['.'].contains c)).reverse ++
+      (l.reverse.takeWhile (fun c => ['.'].contains c)).reverse := by
+    rw [← List.reverse_append, h, List.reverse_reverse]
+  have hlen : l.length - (rstripChars l ['.']).length =
+      (l.reverse.takeWhile (fun c => ['.'].contains c)).length := by
+    have := congrArg List.length h
+    simp only [List.length_append, List.length_reverse] at this
+    simp only [rstripChars, List.length_reverse]
+    omega
+  rw [hlen]
+  conv => rhs; rw [hl, takeWhile_dots, List.reverse_replicate]
+  rfl
+
+/-- **C08's clause gives the host back, empty labels included**: when the two parts re-join to the
+hostname without its trailing dots (bare suffix, or `first.second`), the suffix-aware stems spell
+the hostname itself -/
+theorem rejoinHost_of_rejoins {hn d s : Str}
+    (h : (d = [] ∧ s = rstripChars hn ['.']) ∨ d ++ '.' :: s = rstripChars hn ['.']) :
+    rejoinHost hn d s = hn := by
+  unfold rejoinHost
+  rcases h with ⟨rfl, rfl⟩ | h
+  · simp only [ne_eq, not_true_eq_false, Nat.lt_irrefl, or_self, if_false]
+    exact rstrip_dots_append hn
+  · have hl : s.length < (rstripChars hn ['.']).length := by
+      rw [← h]; simp; omega
+    simp only [hl, or_true, if_true]
+    rw [h]
+    exact rstrip_dots_append hn
+
+theorem mem_rejoinHost_parts {hn d s : Str} {c : Char} (h : c ∈ d ∨ c ∈ s) : c ∈ rejoinHost hn d s := by
+  unfold rejoinHost
+  rcases h with h | h
+  · have : d ≠ [] := by intro e; simp [e] at h
+    simp [this, h]
+  · split <;> simp [h]
 
 /-! ## the index of the stems of a URL -/
 
@@ -263,7 +339,7 @@ theorem child_t (sa : Bool) (p : Parts) (h : wfNetloc p.netloc = true) :
 
 theorem child_h (sa : Bool) (p : Parts) (h : wfNetloc p.netloc = true) :
     child (indexOf sp sa p) ['h'] =
-      some (if sa then hostJoined (specHost p.netloc) (hostSplit sp p.netloc)
+      some (if sa then hostJoined (specHost p.netloc) (lowerHostname p.netloc) (hostSplit sp p.netloc)
             else specHost p.netloc) := by
   rw [child_indexOf, valuesOf_lruStemsT, portSplit_wf h]
   simp only [List.headD_cons]
@@ -282,7 +358,7 @@ theorem child_h (sa : Bool) (p : Parts) (h : wfNetloc p.netloc = true) :
     have := values_normalHostStems (specHost p.netloc)
     simp only [Bool.false_eq_true, if_false, this.1, this.2]
   | true =>
-    have := values_hostStemsOfSplit (specHost p.netloc) (hostSplit sp p.netloc)
+    have := values_hostStemsOfSplit (specHost p.netloc) (lowerHostname p.netloc) (hostSplit sp p.netloc)
     simp [this.1, this.2]
 
 end Ural.Lru
